@@ -5,6 +5,7 @@ import (
 	"go/ast"
 	"go/token"
 	"go/types"
+	"regexp"
 	"sort"
 	"strings"
 
@@ -39,6 +40,19 @@ import (
 //     operand (the objects found by C10.R1's propagation analysis) is the
 //     constant false, `if false` branches are dropped;
 //   * of an error literal only the message is kept (the fork adds the field name).
+//
+// Besides the sites, two whole-function multisets are extracted in the same
+// normal form (with comparison orientation canonicalised: a >= b is b <= a,
+// operands of == / != sorted, `x op= e` is `x = (x op e)`):
+//
+//   cond  every branch condition of the function (if, for, range, switch and
+//         type-switch clauses), whether or not it encloses a site
+//   asgn  every assignment to a non-error named result, or to a parameter /
+//         local that flows (transitively) into a returned value
+//
+// so that a slip in a value computation that leaves all rejection sites intact
+// (`ret.Year() >= 2050` → `> 2050` in front of `ret = ret.AddDate(-100,0,0)`)
+// is seen.
 //
 // What remains different must be listed in the frozen drift table of the rule.
 
@@ -220,6 +234,10 @@ type fdCtx struct {
 	locals map[types.Object]string
 	inline map[types.Object]ast.Expr // single-definition locals, rendered as their defining expression
 	busy   map[types.Object]bool
+	// canon: comparison orientation is canonicalised (a >= b is b <= a, operands
+	// of == / != sorted) and locals are numbered after that, by first occurrence
+	// in the final text (used for the condition / assignment items)
+	canon bool
 }
 
 func (c *fdCtx) obj(id *ast.Ident) types.Object {
@@ -251,10 +269,37 @@ func (c *fdCtx) ident(id *ast.Ident) string {
 			return n
 		}
 		n := fmt.Sprintf("L%d", len(c.locals)+1)
+		if c.canon {
+			n = fmt.Sprintf("\x00%d\x00", len(c.locals)+1)
+		}
 		c.locals[o] = n
 		return n
 	}
 	return id.Name
+}
+
+// lhs renders an assignment target: the target variable itself is never inlined.
+func (c *fdCtx) lhs(e ast.Expr) string {
+	switch e := e.(type) {
+	case *ast.Ident:
+		if o := c.obj(e); o != nil {
+			if _, inl := c.inline[o]; inl {
+				saved := c.inline
+				c.inline = nil
+				defer func() { c.inline = saved }()
+			}
+		}
+		return c.ident(e)
+	case *ast.ParenExpr:
+		return c.lhs(e.X)
+	case *ast.SelectorExpr:
+		return c.lhs(e.X) + "." + e.Sel.Name
+	case *ast.IndexExpr:
+		return c.lhs(e.X) + "[" + c.expr(e.Index) + "]"
+	case *ast.StarExpr:
+		return "*" + c.lhs(e.X)
+	}
+	return c.expr(e)
 }
 
 func (c *fdCtx) exprs(es []ast.Expr) string {
@@ -336,7 +381,20 @@ func (c *fdCtx) expr(e ast.Expr) string {
 				return x
 			}
 		}
-		return "(" + x + " " + e.Op.String() + " " + y + ")"
+		op := e.Op
+		if c.canon {
+			switch op {
+			case token.GTR:
+				x, y, op = y, x, token.LSS
+			case token.GEQ:
+				x, y, op = y, x, token.LEQ
+			case token.EQL, token.NEQ:
+				if fdMask(y) < fdMask(x) {
+					x, y = y, x
+				}
+			}
+		}
+		return "(" + x + " " + op.String() + " " + y + ")"
 	case *ast.CallExpr:
 		args := e.Args
 		if drop := c.s.dropArgs[c.calleeObj(e)]; drop != nil {
@@ -428,6 +486,95 @@ type fdWalker struct {
 	ctx        func() *fdCtx // fresh context (parameter names of the current function, no locals)
 	hasResults bool
 	sites      []fdSite
+	items      []fdSite              // branch conditions and tracked assignments of the whole function
+	tracked    map[types.Object]bool // named results and the locals that flow into returned values
+}
+
+var fdTmpLocal = regexp.MustCompile("\x00[0-9]+\x00")
+
+// fdMask hides the temporary local names for ordering purposes.
+func fdMask(s string) string { return fdTmpLocal.ReplaceAllString(s, "L") }
+
+// fdRenumber names the locals of a canonical text by first occurrence.
+func fdRenumber(s string) string {
+	names := map[string]string{}
+	return fdTmpLocal.ReplaceAllStringFunc(s, func(t string) string {
+		if n, ok := names[t]; ok {
+			return n
+		}
+		n := fmt.Sprintf("L%d", len(names)+1)
+		names[t] = n
+		return n
+	})
+}
+
+func (w *fdWalker) emitItem(kind string, render func(c *fdCtx) string, pos token.Pos) {
+	c := w.ctx()
+	c.canon = true
+	w.items = append(w.items, fdSite{Fn: w.fn, Text: kind + " " + fdRenumber(render(c)), Pos: pos, Fork: w.s.fork})
+}
+
+func (w *fdWalker) emitCond(k fdCond, pos token.Pos) {
+	w.emitItem("cond", func(c *fdCtx) string { return c.cond(k) }, pos)
+}
+
+// lvalue base object of an assignment target and whether the target only selects extra fields
+func (w *fdWalker) lvalueBase(e ast.Expr) (types.Object, bool) {
+	info := w.s.pkg.TypesInfo
+	switch e := e.(type) {
+	case *ast.Ident:
+		if o := info.Defs[e]; o != nil {
+			return o, false
+		}
+		return info.Uses[e], false
+	case *ast.ParenExpr:
+		return w.lvalueBase(e.X)
+	case *ast.SelectorExpr:
+		o, _ := w.lvalueBase(e.X)
+		return o, w.s.extraFields[info.Uses[e.Sel]]
+	case *ast.IndexExpr:
+		return w.lvalueBase(e.X)
+	case *ast.StarExpr:
+		return w.lvalueBase(e.X)
+	}
+	return nil, false
+}
+
+// assignItem emits an assignment / inc-dec statement when it writes a tracked value.
+func (w *fdWalker) assignItem(st ast.Stmt) {
+	switch s := st.(type) {
+	case *ast.AssignStmt:
+		hit := false
+		for _, l := range s.Lhs {
+			if o, extra := w.lvalueBase(l); o != nil && !extra && w.tracked[o] {
+				hit = true
+			}
+		}
+		if hit {
+			w.emitItem("asgn", func(c *fdCtx) string {
+				var lhs []string
+				for _, l := range s.Lhs {
+					if id, ok := l.(*ast.Ident); ok && id.Name == "_" {
+						lhs = append(lhs, "_")
+						continue
+					}
+					lhs = append(lhs, c.lhs(l))
+				}
+				// `x := e` is `x = e`; `x op= e` is `x = (x op e)`
+				if s.Tok != token.DEFINE && s.Tok != token.ASSIGN && len(lhs) == 1 && len(s.Rhs) == 1 {
+					return lhs[0] + " = (" + lhs[0] + " " + strings.TrimSuffix(s.Tok.String(), "=") + " " + c.expr(s.Rhs[0]) + ")"
+				}
+				return strings.Join(lhs, ", ") + " = " + c.exprs(s.Rhs)
+			}, s.Pos())
+		}
+	case *ast.IncDecStmt:
+		if o, _ := w.lvalueBase(s.X); o != nil && w.tracked[o] {
+			w.emitItem("asgn", func(c *fdCtx) string {
+				x := c.lhs(s.X)
+				return x + " = (" + x + " " + s.Tok.String()[:1] + " 1)"
+			}, s.Pos())
+		}
+	}
 }
 
 func (w *fdWalker) emit(kind string, head func(c *fdCtx) string, chain []fdCond, pos token.Pos) {
@@ -613,6 +760,7 @@ func (w *fdWalker) stmt(st ast.Stmt, chain []fdCond) (dead bool, guard *fdCond) 
 			return fdTerminates(s.Body.List), nil
 		}
 		pos, neg := fdCondOf("", s.Cond, ""), fdCondOf("!(", s.Cond, ")")
+		w.emitCond(pos, s.Cond.Pos())
 		w.stmts(s.Body.List, fdWith(chain, pos))
 		w.stmts(elseList, fdWith(chain, neg))
 		tb, te := fdTerminates(s.Body.List), s.Else != nil && fdTerminates(elseList)
@@ -629,6 +777,9 @@ func (w *fdWalker) stmt(st ast.Stmt, chain []fdCond) (dead bool, guard *fdCond) 
 			w.stmt(s.Init, chain)
 		}
 		in := fdWith(chain, fdCondOf("for(", s.Cond, ")"))
+		if s.Cond != nil {
+			w.emitCond(fdCondOf("for(", s.Cond, ")"), s.Cond.Pos())
+		}
 		w.sitesIn(s.Cond, in)
 		w.stmts(s.Body.List, in)
 		if s.Post != nil {
@@ -636,6 +787,7 @@ func (w *fdWalker) stmt(st ast.Stmt, chain []fdCond) (dead bool, guard *fdCond) 
 		}
 	case *ast.RangeStmt:
 		w.sitesIn(s.X, chain)
+		w.emitCond(fdCondOf("range(", s.X, ")"), s.X.Pos())
 		w.stmts(s.Body.List, fdWith(chain, fdCondOf("range(", s.X, ")")))
 	case *ast.SwitchStmt:
 		if s.Init != nil {
@@ -674,6 +826,7 @@ func (w *fdWalker) stmt(st ast.Stmt, chain []fdCond) (dead bool, guard *fdCond) 
 				}
 				w.sitesIn(e, chain)
 			}
+			w.emitCond(k, cc.Pos())
 			w.stmts(cc.Body, fdWith(chain, k))
 		}
 	case *ast.TypeSwitchStmt:
@@ -701,6 +854,7 @@ func (w *fdWalker) stmt(st ast.Stmt, chain []fdCond) (dead bool, guard *fdCond) 
 					k.sep = append(k.sep, ",")
 				}
 			}
+			w.emitCond(k, cc.Pos())
 			w.stmts(cc.Body, fdWith(chain, k))
 		}
 	case *ast.ReturnStmt:
@@ -714,6 +868,7 @@ func (w *fdWalker) stmt(st ast.Stmt, chain []fdCond) (dead bool, guard *fdCond) 
 		}
 	default:
 		w.sitesIn(st, chain)
+		w.assignItem(st)
 	}
 	return false, nil
 }
@@ -727,7 +882,11 @@ type fdResult struct {
 	SigMismatch        []string
 	Matched, Functions int
 	Compared           []string // keys of the functions present on both sides
-	UpstreamDir        string
+	// whole-function items ("cond …" branch conditions, "asgn …" assignments to
+	// named results and to locals that flow into returned values), unmatched ones
+	ItemsOnlyFork, ItemsOnlyUp []fdSite
+	ItemsMatched               int
+	UpstreamDir                string
 }
 
 // ForkDiff compares the fork package with the upstream package.
@@ -781,7 +940,7 @@ func ForkDiff(fork, up *packages.Package, files map[string]bool, laxObjs map[typ
 			}
 		}
 	}
-	sitesOf := func(s *fdSide, k string, m []int) []fdSite {
+	sitesOf := func(s *fdSide, k string, m []int) ([]fdSite, []fdSite) {
 		fd := s.funcs[k]
 		fo := s.pkg.TypesInfo.Defs[fd.Name].(*types.Func)
 		sig := fo.Type().(*types.Signature)
@@ -810,8 +969,9 @@ func ForkDiff(fork, up *packages.Package, files map[string]bool, laxObjs map[typ
 		w.ctx = func() *fdCtx {
 			return &fdCtx{s: s, params: params, locals: map[types.Object]string{}, inline: inl, busy: map[types.Object]bool{}}
 		}
+		w.tracked = fdTracked(fd, s.pkg.TypesInfo, sig, inl)
 		w.stmts(fd.Body.List, nil)
-		return w.sites
+		return w.sites, w.items
 	}
 	for _, k := range keysOf(fs.funcs) {
 		if _, ok := us.funcs[k]; !ok {
@@ -819,8 +979,27 @@ func ForkDiff(fork, up *packages.Package, files map[string]bool, laxObjs map[typ
 		}
 		res.Functions++
 		res.Compared = append(res.Compared, k)
-		f := sitesOf(fs, k, align[k])
-		u := sitesOf(us, k, nil)
+		f, fi := sitesOf(fs, k, align[k])
+		u, ui := sitesOf(us, k, nil)
+		for i := range fi {
+			for j := range ui {
+				if !ui[j].match && ui[j].Text == fi[i].Text {
+					ui[j].match, fi[i].match = true, true
+					res.ItemsMatched++
+					break
+				}
+			}
+		}
+		for _, s := range fi {
+			if !s.match {
+				res.ItemsOnlyFork = append(res.ItemsOnlyFork, s)
+			}
+		}
+		for _, s := range ui {
+			if !s.match {
+				res.ItemsOnlyUp = append(res.ItemsOnlyUp, s)
+			}
+		}
 		for i := range f {
 			for j := range u {
 				if !u[j].match && u[j].Text == f[i].Text {
@@ -844,6 +1023,106 @@ func ForkDiff(fork, up *packages.Package, files map[string]bool, laxObjs map[typ
 	sort.Strings(res.FuncsOnlyFork)
 	sort.Strings(res.FuncsOnlyUp)
 	return res
+}
+
+// fdTracked: the non-error named results, plus (fixpoint) the non-inlined,
+// non-error locals that occur in a return expression or on the right-hand
+// side of an assignment to a tracked variable.
+func fdTracked(fd *ast.FuncDecl, info *types.Info, sig *types.Signature, inline map[types.Object]ast.Expr) map[types.Object]bool {
+	tr := map[types.Object]bool{}
+	for i := 0; i < sig.Results().Len(); i++ {
+		if r := sig.Results().At(i); r.Name() != "" && r.Name() != "_" && !fdIsErrorType(r.Type()) {
+			tr[r] = true
+		}
+	}
+	isLocal := func(o types.Object) bool {
+		v, ok := o.(*types.Var)
+		return ok && !v.IsField() && o.Pkg() != nil && o.Parent() != o.Pkg().Scope() && !fdIsErrorType(o.Type())
+	}
+	changed := false
+	var add func(n ast.Node, depth int)
+	add = func(n ast.Node, depth int) {
+		if n == nil || depth > 8 {
+			return
+		}
+		ast.Inspect(n, func(x ast.Node) bool {
+			if _, ok := x.(*ast.FuncLit); ok {
+				return false
+			}
+			id, ok := x.(*ast.Ident)
+			if !ok {
+				return true
+			}
+			o := info.Uses[id]
+			if o == nil || !isLocal(o) {
+				return true
+			}
+			if def, ok := inline[o]; ok {
+				add(def, depth+1)
+				return true
+			}
+			if !tr[o] {
+				tr[o] = true
+				changed = true
+			}
+			return true
+		})
+	}
+	base := func(e ast.Expr) types.Object {
+		for {
+			switch x := e.(type) {
+			case *ast.Ident:
+				if o := info.Defs[x]; o != nil {
+					return o
+				}
+				return info.Uses[x]
+			case *ast.ParenExpr:
+				e = x.X
+			case *ast.SelectorExpr:
+				e = x.X
+			case *ast.IndexExpr:
+				e = x.X
+			case *ast.StarExpr:
+				e = x.X
+			default:
+				return nil
+			}
+		}
+	}
+	for first := true; first || changed; first = false {
+		changed = false
+		ast.Inspect(fd.Body, func(n ast.Node) bool {
+			switch n := n.(type) {
+			case *ast.FuncLit:
+				return false
+			case *ast.ReturnStmt:
+				for i, e := range n.Results {
+					// the error result is covered by the sites; its operands (the
+					// fork's field names) are not value computations
+					if len(n.Results) == sig.Results().Len() && fdIsErrorType(sig.Results().At(i).Type()) {
+						continue
+					}
+					add(e, 0)
+				}
+			case *ast.AssignStmt:
+				for _, l := range n.Lhs {
+					if o := base(l); o != nil && tr[o] {
+						for _, e := range n.Rhs {
+							add(e, 0)
+						}
+						for _, l2 := range n.Lhs { // index expressions of the targets
+							if ix, ok := l2.(*ast.IndexExpr); ok {
+								add(ix.Index, 0)
+							}
+						}
+						break
+					}
+				}
+			}
+			return true
+		})
+	}
+	return tr
 }
 
 // fdExtraFields lists the struct fields of a's named struct types that the
